@@ -4,6 +4,7 @@ import (
 	"fmt"
 	"go/token"
 	"go/types"
+	"strings"
 
 	"golang.org/x/tools/go/ssa"
 )
@@ -61,6 +62,8 @@ func runC19(c *Ctx) {
 		return
 	}
 	c.r191(proxy, hasPerm)
+	c.rule("R19.4", "the permission sets handed to the proxy constructor are only read (sorting the valid set in place rewrites the defaults that alias it)")
+	c.permSetsReadOnly("R19.4", proxy)
 	c.r192(hasPerm, withPerm)
 	c.r193(withPerm)
 }
@@ -872,3 +875,92 @@ func reachesBlock(from ssa.Instruction, b *ssa.BasicBlock) bool {
 
 // constPrefixArg: a constant string argument, directly or as a package-level constant.
 func constPrefixArg(v ssa.Value) (string, bool) { return constString(v) }
+
+// permSetsReadOnly: R19.4. The permission slices handed to the proxy constructor belong to the caller
+// and commonly share one backing array (defaults = all[:1]). The constructor only reads them: no store
+// into an element, no sort / reverse / copy-into. Sorting the valid permissions in place (for a binary
+// search) silently rewrites the defaults that alias them: a caller with nothing attached is then denied
+// what the defaults granted and allowed what they did not.
+func (c *Ctx) permSetsReadOnly(rule string, proxy *ssa.Function) {
+	n := 0
+	for _, prm := range proxy.Params {
+		sl, ok := prm.Type().Underlying().(*types.Slice)
+		if !ok {
+			continue
+		}
+		if nt, ok := sl.Elem().(*types.Named); !ok || nt.Obj().Pkg() != proxy.Pkg.Pkg {
+			continue
+		}
+		n++
+		construct := fmt.Sprintf("%s: permission set %s is only read", fname(proxy), prm.Name())
+		var bad ssa.Instruction
+		// copies have a backing array of their own
+		copies := map[ssa.Value]bool{}
+		for _, g := range c.region(proxy) {
+			allInstrsRaw(g, func(in ssa.Instruction) {
+				ci, ok := in.(*ssa.Call)
+				if !ok {
+					return
+				}
+				if b, isB := ci.Common().Value.(*ssa.Builtin); isB && b.Name() == "append" {
+					a0 := ci.Common().Args[0]
+					if _, fresh := a0.(*ssa.MakeSlice); fresh || isNilConst(a0) {
+						copies[ci] = true
+					}
+				}
+				if nm := calleeName(ci); nm == "slices.Clone" {
+					copies[ci] = true
+				}
+			})
+		}
+		isPrm := func(v ssa.Value) bool {
+			seen := map[ssa.Value]bool{}
+			for k := range copies {
+				seen[k] = true
+			}
+			return c.dependsOn(v, func(x ssa.Value) bool { return x == ssa.Value(prm) }, 0, seen)
+		}
+		for _, g := range c.region(proxy) {
+			allInstrsRaw(g, func(in ssa.Instruction) {
+				switch x := in.(type) {
+				case *ssa.Store:
+					if ia, ok := x.Addr.(*ssa.IndexAddr); ok {
+						if _, isSl := ia.X.Type().Underlying().(*types.Slice); isSl && isPrm(ia.X) {
+							bad = in
+						}
+					}
+				case ssa.CallInstruction:
+					nm := calleeName(x)
+					mutating := strings.HasPrefix(nm, "sort.") && nm != "sort.Search" && !strings.HasPrefix(nm, "sort.Search") && !strings.HasSuffix(nm, "AreSorted") && !strings.HasSuffix(nm, "IsSorted") ||
+						strings.HasPrefix(nm, "slices.Sort") || nm == "slices.Reverse"
+					if b, ok := x.Common().Value.(*ssa.Builtin); ok && b.Name() == "copy" {
+						if isPrm(x.Common().Args[0]) {
+							bad = in
+						}
+					}
+					if mutating {
+						for _, a := range x.Common().Args {
+							if _, isFn := a.Type().Underlying().(*types.Signature); isFn {
+								continue
+							}
+							if mi, isMI := a.(*ssa.MakeInterface); isMI {
+								a = mi.X
+							}
+							if isPrm(blockLocalValue(a)) {
+								bad = in
+							}
+						}
+					}
+				}
+			})
+		}
+		if bad != nil {
+			c.bad(rule, construct, c.ipos(bad), "the constructor writes into a permission slice it was given (sorts it in place, stores into it): the caller's valid and default sets usually share one backing array, so the defaults change under it — a caller with nothing attached is then checked against the wrong defaults")
+		} else {
+			c.ok(rule, construct, c.P.pos(proxy.Pos()), "never written, sorted or copied into")
+		}
+	}
+	if n == 0 {
+		c.und(rule, "permission set parameters", "-", "none found")
+	}
+}
